@@ -33,7 +33,78 @@ let run_exec (op : string) (args : sexp list) : string =
       render_x (exec_program (profile_of prof) (nat_of_int !default_fuel) p c)
   | _ -> "unknown-op " ^ op
 
+let ttype_text (t : ttype) : string =
+  match t with
+  | TStringLiteral s -> "(StringLiteral " ^ atom_of_str s ^ ")"
+  | TNumber f -> "(Number " ^ atom_of_f64 f ^ ")"
+  | TComment s -> "(Comment " ^ atom_of_str s ^ ")"
+  | TError m -> "(Error " ^ atom_of_str m ^ ")"
+  | TWord -> "Word" | TMysterious -> "Mysterious" | TNull -> "Null" | TTrue -> "True" | TFalse -> "False"
+  | TEmpty -> "Empty" | TCommonVariablePrefix -> "CommonVariablePrefix" | TPronoun -> "Pronoun" | TAt -> "At"
+  | TLike -> "Like" | TPlus -> "Plus" | TMinus -> "Minus" | TMultiply -> "Multiply" | TDivide -> "Divide"
+  | TIs -> "Is" | TIsnt -> "Isnt" | TSays -> "Says" | TPut -> "Put" | TInto -> "Into" | TLet -> "Let" | TBe -> "Be"
+  | TWith -> "With" | TNot -> "Not" | TApostropheS -> "ApostropheS" | TApostropheRE -> "ApostropheRE"
+  | TAnd -> "And" | TOr -> "Or" | TNor -> "Nor" | TAs -> "As" | TBig -> "Big" | TBigger -> "Bigger"
+  | TSmall -> "Small" | TSmaller -> "Smaller" | TThan -> "Than" | TGreater -> "Greater" | TGreaterEq -> "GreaterEq"
+  | TLess -> "Less" | TLessEq -> "LessEq" | TIf -> "If" | TElse -> "Else" | TWhile -> "While" | TUntil -> "Until"
+  | TContinue -> "Continue" | TBreak -> "Break" | TTake -> "Take" | TTop -> "Top" | TSay -> "Say"
+  | TSayAlias -> "SayAlias" | TListen -> "Listen" | TTo -> "To" | TBuild -> "Build" | TKnock -> "Knock"
+  | TUp -> "Up" | TDown -> "Down" | TCut -> "Cut" | TJoin -> "Join" | TCast -> "Cast" | TTurn -> "Turn"
+  | TRound -> "Round" | TRock -> "Rock" | TRoll -> "Roll" | TTakes -> "Takes" | TTaking -> "Taking"
+  | TReturn -> "Return" | TBack -> "Back" | TAmpersand -> "Ampersand"
+  | TApostropheNApostrophe -> "ApostropheNApostrophe" | TComma -> "Comma" | TDot -> "Dot" | TNewline -> "Newline"
+
+let token_text (t : token) : string =
+  let r = t.trange in
+  Printf.sprintf "(tok %s %s %s %s %s %s %s)" (ttype_text t.tid) (atom_of_str t.tspell) (dec_of_n t.tstart)
+    (dec_of_n r.rstart.line) (dec_of_n r.rstart.col) (dec_of_n r.rend.line) (dec_of_n r.rend.col)
+
+let run_lex (op : string) (args : sexp list) : string =
+  match op, args with
+  | "tokens", (A src :: rest) ->
+      let prof = (match rest with [A p] -> profile_of p | _ -> Debug) in
+      Main_common.render_res (fun pts ->
+          String.concat " " (List.map (fun pt ->
+            Printf.sprintf "%s (post %s %s %s)" (token_text pt.pt_tok) (dec_of_n pt.pt_line)
+              (dec_of_n pt.pt_loc.line) (dec_of_n pt.pt_loc.col)) pts))
+        (fun () -> "") (lex prof (str_of_atom src))
+  | _ -> "unknown-op " ^ op
+
+let parse_text (prof : profile) (src : str) : string =
+  match parse prof src with
+  | ParseOk p -> "ok " ^ sexp_to_string (Astsx.sx_program p)
+  | ParseErr e ->
+      (match parse_error_display e with
+       | Ok m -> "err " ^ utf8_of_str (perr_code_name e.pe_code) ^ " " ^ dec_of_n (perr_line e) ^ " " ^ atom_of_str m
+       | Panic s -> "panic render-" ^ Main_common.site_name s
+       | _ -> "panic render")
+  | ParseCrash (s, ub) -> (if ub then "ub " else "panic ") ^ Main_common.site_name s
+  | ParseOutOfFuel -> "outoffuel"
+
+(* run a program from source text through the model's own lexer and parser *)
+let run_src (src : str) (stdin : str) wb rf prof : string =
+  match parse prof src with
+  | ParseOk p ->
+      let c : channels = { in_rest = stdin; in_pos = N0; in_fault = rf; out_bytes = []; out_budget = wb } in
+      render_x (exec_program prof (nat_of_int !default_fuel) p c)
+  | ParseErr e ->
+      (match parse_error_display e with
+       | Ok m -> "parse-error " ^ atom_of_str m
+       | _ -> "panic render")
+  | ParseCrash (s, ub) -> (if ub then "ub " else "panic ") ^ Main_common.site_name s
+  | ParseOutOfFuel -> "outoffuel"
+
 let run (suite : string) (op : string) (args : sexp list) : string =
   match suite with
+  | "exec" when op = "parse" ->
+      (match args with
+       | (A src :: rest) -> parse_text (match rest with [A p] -> profile_of p | _ -> Debug) (str_of_atom src)
+       | _ -> "driver-error args")
+  | "exec" when op = "run" ->
+      (match args with
+       | [A src; A stdin; wb; rf] -> run_src (str_of_atom src) (str_of_atom stdin) (opt_n wb) (opt_n rf) Debug
+       | [A src; A stdin; wb; rf; A p] -> run_src (str_of_atom src) (str_of_atom stdin) (opt_n wb) (opt_n rf) (profile_of p)
+       | _ -> "driver-error args")
+  | "lex" -> run_lex op args
   | "exec" -> run_exec op args
   | _ -> "unknown-suite " ^ suite
